@@ -552,3 +552,10 @@ func rulePANIC_C13(c *Ctx, r *Report) {
 	runPanicRules(c, r, reach, c.panicDischargers(r, reach))
 	r.floor("PANIC-IDX", "reachable library functions", len(r.Units["functions"]), 60)
 }
+
+func rulePANIC_C12(c *Ctx, r *Report) {
+	roots := []*ssa.Function{c.method(pkgExpr, "Expression", "UnmarshalJSON"), c.method(pkgExpr, "Expression", "MarshalJSON")}
+	reach := c.reachFrom(roots)
+	runPanicRules(c, r, reach, c.panicDischargers(r, reach))
+	r.floor("PANIC-IDX", "reachable library functions", len(r.Units["functions"]), 15)
+}
